@@ -13,7 +13,7 @@ RULE = ("G2: typed Sids (concrete and search) of every configured type, stratifi
         "Non-trivial = distinct typed uri; the M-sid monitor (C01 oracle) stays installed.")
 ASSUME = ["query round trip only judged for values that are non-empty and free of whitespace and of & = % + # ? ~ ;",
           "Sid(fields=...) of a Sid whose type was FORCED by a uri away from its natural type is not judged (quantifier: natural typing)"]
-BUDGET = {"quick": 24000, "thorough": 320000}
+BUDGET = {"quick": 24000, "thorough": 1600000}
 NSHARDS = 16
 QUERY_UNSAFE = set(" \t\n\r\0&=%+#?~;")
 
